@@ -9,6 +9,7 @@ import MysyncModel.App.Switchover
 import MysyncModel.World.Env
 import MysyncProofs.Lemmas.SwitchoverLemmas
 import MysyncProofs.Lemmas.GtidLemmas
+import MysyncProofs.Lemmas.NormalizeLemmas
 
 namespace C01
 open NS Gtid Select Switchover
@@ -70,6 +71,28 @@ theorem promotion_safe (cfg : Cfg) (i : In) (s : Step) (hs : s ∈ performSwitch
     ∀ f ∈ frozen i, GSubset (total f) execNew := by
   obtain ⟨h, ok, rfl⟩ := hp
   exact SwitchoverLemmas.promotion_safe cfg i h ok hs total execNew hpos hcaught hc
+
+/-- the same in terms of what the servers report: a replica's position is its executed set JOINED with
+its retrieved set (`MysqlGTIDSet.Update`, proved to be set union and to keep sets well-formed in
+Lemmas/NormalizeLemmas.lean), so no well-formedness assumption about the joined set is left: every
+transaction a frozen host has executed OR merely received is in the promoted node's executed set -/
+theorem promotion_safe_joined (cfg : Cfg) (i : In) (s : Step) (hs : s ∈ performSwitchover cfg i) (hp : IsPromotion s)
+    (executed retrieved : String → GtidSet) (execNew : GtidSet)
+    (hwf : ∀ h, WF (executed h) ∧ WF (retrieved h))
+    (hpos : ∀ ps, i.positions = some ps →
+      (∀ p ∈ ps, p.gtid = update (executed p.host) (retrieved p.host)) ∧ ∀ f ∈ frozen i, ∃ p ∈ ps, p.host = f)
+    (hcaught : i.catchUp = .caught → ∀ ps mr, i.positions = some ps → findMostRecent ps = .node mr → GSubset mr.gtid execNew)
+    (hc : i.catchUp = .caught) :
+    ∀ f ∈ frozen i, GSubset (executed f) execNew ∧ GSubset (retrieved f) execNew := by
+  intro f hf
+  have h := promotion_safe cfg i s hs hp (fun h => update (executed h) (retrieved h)) execNew
+    (fun ps hps => ⟨fun p hp' => ⟨by
+        rw [(hpos ps hps).1 p hp']
+        exact GtidLemmas.wf_update _ _ (hwf p.host).1 (hwf p.host).2.2, (hpos ps hps).1 p hp'⟩,
+      (hpos ps hps).2⟩) hcaught hc f hf
+  refine ⟨fun k x hm => h k x ?_, fun k x hm => h k x ?_⟩
+  · exact (GtidLemmas.update_union _ _ (hwf f).2.1 k x).mpr (Or.inl hm)
+  · exact (GtidLemmas.update_union _ _ (hwf f).2.1 k x).mpr (Or.inr hm)
 
 /-- the only exception: the allowed lag of async mode during AUTOMATIC failover -/
 theorem async_escape_only_if (cfg : Cfg) (sw : Manager.Switch) (delay : Option Int)
